@@ -351,6 +351,33 @@ func altKind(s string) string {
 	return s
 }
 
+// shutdownDuringHandshake: a Server.Close / HTTP server close was invoked between the arrival of a's handshake request
+// and the return of its handler.
+func (f *sessionFam) shutdownDuringHandshake(w *World, a string) bool {
+	var from, to int64 = -1, -1
+	for _, e := range w.Evs {
+		if e.Sess != a {
+			continue
+		}
+		if e.Kind == "http-req" && from < 0 {
+			from = int64(e.Seq)
+		}
+		if e.Kind == "http-ret" && from >= 0 {
+			to = int64(e.Seq)
+			break
+		}
+	}
+	if from < 0 {
+		return false
+	}
+	for _, e := range w.evs("", "app-server-close", "app-http-close") {
+		if int64(e.Seq) > from && (to < 0 || int64(e.Seq) < to) {
+			return true
+		}
+	}
+	return false
+}
+
 // oracleC06: one session per admitted handshake, open packet advertises the effective configuration.
 func oracleC06(f *sessionFam, w *World, res *Result) []Violation {
 	l := &vlist{prop: "C06"}
@@ -407,6 +434,11 @@ func oracleC06(f *sessionFam, w *World, res *Result) []Violation {
 			}
 			continue
 		}
+		if len(conns) == 0 && f.shutdownDuringHandshake(w, a) {
+			// the server was shut down while this session was being set up: it was closed with every other
+			// session (C12) before it could be announced, and a session that is already closed is not announced
+			continue
+		}
 		if len(conns) != 1 {
 			l.add("one-connection-event", "", fmt.Sprintf("%s [%s]: admitted handshake produced %d connection events", a, ctx, len(conns)))
 			continue
@@ -419,6 +451,10 @@ func oracleC06(f *sessionFam, w *World, res *Result) []Violation {
 			if ce := w.evs(a, "close"); len(ce) > 0 && f.armedCauses(w, a, ce[0].Seq)[ce[0].S] && ce[0].T-hs[0].T <= time.Duration(2*sp.LatencyMs+1)*time.Millisecond {
 				// the session was closed for a cause of its own (a shutdown, an application close) while the open packet
 				// was still on its way: the connection went down under it
+				continue
+			}
+			if cba := w.evs(a, "close-before-attach"); len(cba) > 0 && f.shutdownDuringHandshake(w, a) {
+				// the same, with the shutdown between the announcement and the application's first look at the session
 				continue
 			}
 			l.add("open-packet-first", "", fmt.Sprintf("%s [%s]: admitted handshake but the client never received an open packet", a, ctx))
